@@ -29,6 +29,20 @@ CLAIMED = {
         ref="DESIGN.md §6 C04",
         technique="Lean 4 proof (invariant by induction over operation histories, refinement to a finite map) + differential correspondence of op traces and packages",
     ),
+    "C16": dict(
+        text="Lean 4 theorems over the model of hdl21/flatten.py (walk with its port-to-net environment, by-name re-creation) for every "
+        "module table, depth and sharing: the flat module has exactly one instance per leaf of the hierarchy, all leaves, under pairwise "
+        "distinct names, and the top's ports; two leaf terminals share a flat signal iff walk put them on one net (path, name), a terminal "
+        "is on a flat port iff it is on that port's net; whenever two different nets or leaves would share a ':'-joined name flatten "
+        "returns nothing; a child's port is the net its parent connects, an internal signal a net private to its instance path. Tied to "
+        "the code by generated hierarchies (incl. designer names with ':' colliding with joined paths): flat module compared name by name "
+        "with the model's, and Sem.pkg(to_proto(flatten(m))) = Sem.src(m) with the same devices.",
+        note="Model hand-written after flatten.py. That walk's labelling is the hierarchy's connectivity is not a theorem: it is decided per "
+        "design against the independent declarative semantics Sem.src (Design.lean). Slices/concats: refused by the code (NotImplementedError), "
+        "outside the model; such designs are only judged on what flatten returns.",
+        ref="DESIGN.md §6 C16",
+        technique="Lean 4 proof (structural induction over fuel-bounded hierarchy walk; injectivity of joined names as explicit obligation) + differential correspondence",
+    ),
     "C14": dict(
         text="Lean 4 theorems (Mathlib ℚ) over the model of hdl21/prefix.py: add/sub/mul/neg/abs/scale return exactly the "
         "rational result for every mantissa, exponent and prefix pair; comparisons are total, satisfy trichotomy and the usual "
